@@ -116,7 +116,7 @@ def run(chk):
     mcases = []
     for c, a in zip(cases, ci):
         f = a.split()
-        if a.startswith(("PANIC", "CRASH", "TIMEOUT")) or len(f) < 2:
+        if a.startswith(("PANIC", "CRASH", "TIMEOUT", "HANG")) or len(f) < 2:
             mcases.append("version 1")
             continue
         ranks = f[0].split("=")[1]
@@ -126,7 +126,7 @@ def run(chk):
     for c, a, b in zip(cases, ci, cm):
         chk.evaluations += 1
         chk.count("ap")
-        if a.startswith(("PANIC", "CRASH", "TIMEOUT")):
+        if a.startswith(("PANIC", "CRASH", "TIMEOUT", "HANG")):
             chk.monitor_fail("ActivePeers panicked / hung", dict(case=c, impl=a[:200]))
             continue
         obs = a.split()[2:]
@@ -142,7 +142,7 @@ def run(chk):
     si = run_impl("activepeers", st, shards=4)
     mc2 = []
     for c, a in zip(st, si):
-        if a.startswith(("PANIC", "CRASH", "TIMEOUT")) or "|" not in a:
+        if a.startswith(("PANIC", "CRASH", "TIMEOUT", "HANG")) or "|" not in a:
             mc2.append("version 1")
             continue
         head, ops = a.split(" | ")
@@ -152,7 +152,7 @@ def run(chk):
     for c, a, b in zip(st, si, sm):
         chk.evaluations += 1
         chk.count("apstress")
-        if a.startswith(("PANIC", "CRASH", "TIMEOUT")) or "|" not in a:
+        if a.startswith(("PANIC", "CRASH", "TIMEOUT", "HANG")) or "|" not in a:
             chk.monitor_fail("ActivePeers panicked / hung under concurrent use", dict(case=c, impl=a[:200]))
             continue
         head, ops = a.split(" | ")
